@@ -49,8 +49,8 @@ TEXT = {
         technique="bounded-exhaustive input enumeration (complete cubes over finite universes) against a reference model",
     ),
     "C10": dict(
-        level="Explicit-state model checking (BFS with snapshot/restore of store and caches, deduplicated by a canonical form) of the parent life cycle against the real composite controller: every transition is a real sync or an environment step; temporal monitors F1-F7 (finalizer before first child, never added to a deleting parent, right hook with the right finalizing flag, removal only after finalized:true, children follow the finalize answer, no child writes for a dying parent without finalizer/hook or with a GC finalizer, leftover finalizer removed) run on the request and hook logs of every sync.",
-        note="Depth-capped (quick 7 from each root, thorough 10): reported as exhaustive:false with the bound; decorator life cycle is covered by C16's finalizer modes and C03's finalizing mode, not by this BFS.",
+        level="Explicit-state model checking (BFS with snapshot/restore of store and caches, deduplicated by a canonical form) of the parent life cycle against the real composite and decorator controllers: every transition is a real sync or an environment step; temporal monitors F1-F7 (finalizer before first child, never added to a deleting parent, right hook with the right finalizing flag, removal only after finalized:true, children follow the finalize answer, no child writes for a dying parent without finalizer/hook or with a GC finalizer, leftover finalizer removed) run on the request and hook logs of every sync.",
+        note="Depth-capped (quick 7 from each root, thorough 10): reported as exhaustive:false with the bound. Composite (incl. two live revisions) and decorator are explored separately.",
         technique="explicit-state BFS over the real code (snapshot/restore, canonical-state dedup), temporal monitors on request logs",
     ),
 }
